@@ -33,7 +33,8 @@ class World:
     def sql_table(self, ident, cols, rows):
         if ident not in self.tables:
             t = sqlalchemy.Table(f"L{ident}", self.meta,
-                                 *[sqlalchemy.Column(c.qualified_name, sqlalchemy.Integer) for c in cols])
+                                 *([sqlalchemy.Column(c.qualified_name, sqlalchemy.Integer) for c in cols]
+                                   or [sqlalchemy.Column("dummy__", sqlalchemy.Integer)]))
             self.tables[ident] = (t, list(cols), [dict(r) for r in rows])
         return self.tables[ident][0]
 
@@ -205,28 +206,26 @@ class RealProcessor(dr.Processor):
         return self._payload_for(target.engine, target.columns, self._rows_of(target), name)
 
 
-DB = sqlalchemy.create_engine("sqlite://")
-
-
 def execute(w: World, rel, reverse=False):
-    """Process and execute rel in its final engine against a fresh SQLite database. -> (rows, processor log)"""
-    with DB.connect() as conn:
-        try:
+    """Process and execute rel in its final engine against a fresh SQLite database.
+    -> (rows, processor, processed relation)"""
+    db = sqlalchemy.create_engine("sqlite://")
+    try:
+        with db.connect() as conn:
             conn.exec_driver_sql(f"PRAGMA reverse_unordered_selects = {'ON' if reverse else 'OFF'}")
             for ident, (t, cols, rows) in w.tables.items():
                 t.create(conn)
                 if rows:
-                    conn.execute(t.insert(), [{c.qualified_name: r[c] for c in cols} for r in rows])
+                    conn.execute(t.insert(), [({c.qualified_name: r[c] for c in cols} or {"dummy__": 1}) for r in rows])
             proc = RealProcessor(w, conn)
             processed = proc.process(rel)
             rows = proc._rows_of(processed)
             return rows, proc, processed
-        finally:
-            conn.rollback()
-            # temp tables created by the processor live in the rolled-back transaction
-            for t in list(w.meta.tables.values()):
-                if t.name.startswith("tmp_"):
-                    w.meta.remove(t)
+    finally:
+        db.dispose()
+        for t in list(w.meta.tables.values()):
+            if t.name.startswith("tmp_"):
+                w.meta.remove(t)
 
 
 # ---- generation ------------------------------------------------------------------------------------------------
